@@ -1,5 +1,7 @@
 (** * C12 runner: get_closed_loop of the Polygon model (primitive floats) against the crate: the vertex
-    list of the merged outline and the state of the subsequently closed loop, bit for bit. *)
+    list of the merged outline and the state of the subsequently closed loop, bit for bit (cases [CM]);
+    and the remaining public operations of Loop3D / Polygon3D called directly on the same loops and polygons and on
+    loops derived from them (cases [CQ], below). *)
 From G3 Require Export Run.PolyCommon Model.Json Model.PolyAux.
 
 Definition eq_vlists (a b : list (V3 K)) : bool := sfl_eqb (flat a) (flat b).
@@ -7,7 +9,7 @@ Definition eq_vlists (a b : list (V3 K)) : bool := sfl_eqb (flat a) (flat b).
         + 10 when the run is "clean" (no push replaced a collinear predecessor, none refused) and the
              merged vertex list equals the specification sequence [closed_loop_spec]
         + 20 when the pinned index arithmetic would have produced a different vertex list (or a panic) *)
-Definition chk (c : LoopIn * list LoopIn * list spec_float * (N * LoopIn) * (N * LoopIn)) : N :=
+Definition chk_merge (c : LoopIn * list LoopIn * list spec_float * (N * LoopIn) * (N * LoopIn)) : N :=
   let '(outer, hs, an, (mo, ml), (co, cl)) := c in
   let P := mkPoly (mk_loop outer) (map mk_loop hs) (fl an 0) (v_of an 1) in
   let r := poly_get_closed_loop P in
@@ -23,6 +25,80 @@ Definition chk (c : LoopIn * list LoopIn * list spec_float * (N * LoopIn) * (N *
     let pinned_differs := match poly_get_closed_loop_gen true P with Ok Lp => negb (eq_vlists (verts Lp) (verts L)) | _ => true end in
     (1 + N.of_nat (length hs) + (if clean then 10 else 0) + (if pinned_differs then 20 else 0))%N
   | _ => 1%N
+  end.
+
+(** ** the other public operations of Loop3D / Polygon3D, called directly (cases [CQ]).
+    A query = (op, subject loop, integer argument, float arguments, expected class, expected floats, expected loop):
+      1 [Loop3D::is_diagonal] -> [loop_is_diagonal]        2 [Loop3D::sanitize] -> [loop_sanitize]
+      3 [Loop3D::contains_segment] -> [loop_contains_segment]   4 [Polygon3D::contains_segment] -> [poly_contains_segment]
+      5 [Loop3D::perimeter] -> [loop_perimeter]            6 [Loop3D::area] -> [loop_area]
+      7 [Loop3D::is_coplanar] -> [loop_is_coplanar]        8 [Loop3D::remove] -> [loop_remove] (Model/Triangulation.v)
+      9 [Index<usize> for Loop3D] -> [loop_index]          10 [Polygon3D::inner] -> [poly_inner]
+    Classes: booleans 0 false / 1 true, values 0 = Ok; 100 + class = Err; 99 = panic (any site).
+    The subject loops travel as their complete observable state; when [npoly] > 0 the polygon is
+    (loops[0]; loops[1 .. npoly-1]; area, normal = [an]). *)
+From G3 Require Import Model.Triangle Model.Triangulation.
+
+Definition query := (N * N * N * list spec_float * N * list spec_float * LoopIn)%type.
+Definition bclass (r : res bool) : N := match r with Ok false => 0 | Ok true => 1 | Err c => 100 + c | Panic _ => 99 end%N.
+Definition vclass {A} (r : res A) : N := match r with Ok _ => 0 | Err c => 100 + c | Panic _ => 99 end%N.
+Definition seg_of (a : list spec_float) : Seg K := seg_new (v_of a 0) (v_of a 3).
+Definition empty_loop : Loop K := mk_loop noloop.
+
+(** one query: 0 = mismatch, else outcome bits: 1 Ok true / Ok value, 2 Ok false, 4 Err, 8 Panic *)
+Definition outcome_bit (cls : N) (is_bool : bool) : N :=
+  if N.eqb cls 99 then 8 else if N.leb 100 cls then 4 else if is_bool && N.eqb cls 0 then 2 else 1.
+Definition chk_query (loops : list (Loop K)) (P : option (Poly K)) (q : query) : N :=
+  let '(op, subj, idx, a, ecls, efl, eloop) := q in
+  let L := nth (N.to_nat subj) loops empty_loop in
+  let i := N.to_nat idx in
+  let fin_b (r : res bool) := if N.eqb (bclass r) ecls then outcome_bit ecls true else 0%N in
+  let fin_l (r : res (Loop K)) :=
+    if negb (N.eqb (vclass r) ecls) then 0%N else
+    match r with Ok L' => if loop_eqb L' eloop then 1%N else 0%N | _ => outcome_bit ecls false end in
+  let fin_f (r : res (list K)) :=
+    if negb (N.eqb (vclass r) ecls) then 0%N else
+    match r with Ok v => if sfl_eqb (map Prim2SF v) efl then 1%N else 0%N | _ => outcome_bit ecls false end in
+  match op, P with
+  | 1%N, _ => fin_b (loop_is_diagonal L (seg_of a))
+  | 2%N, _ => fin_l (loop_sanitize L)
+  | 3%N, _ => fin_b (Ok (loop_contains_segment L (seg_of a)))
+  | 4%N, Some P => fin_b (Ok (poly_contains_segment P (seg_of a)))
+  | 5%N, _ => fin_f (do x <- loop_perimeter L; Ok [x])
+  | 6%N, _ => fin_f (do x <- loop_area L; Ok [x])
+  | 7%N, _ => fin_b (loop_is_coplanar L (v_of a 0))
+  | 8%N, _ => fin_l (loop_remove L i)
+  | 9%N, _ => fin_f (do v <- loop_index L i; Ok [vx v; vy v; vz v])
+  | 10%N, Some P => fin_l (poly_inner P i)
+  | _, _ => 0%N
+  end.
+Fixpoint chk_queries (loops : list (Loop K)) (P : option (Poly K)) (qs : list query) (bits : N) : N :=
+  match qs with
+  | [] => bits
+  | q :: tl => match chk_query loops P q with 0%N => 0%N | b => chk_queries loops P tl (N.lor bits b) end
+  end.
+Definition first_op (qs : list query) : N := match qs with (op, _, _, _, _, _, _) :: _ => op | [] => 0%N end.
+
+Inductive c12case :=
+| CM (c : LoopIn * list LoopIn * list spec_float * (N * LoopIn) * (N * LoopIn))
+| CQ (npoly : N) (an : list spec_float) (loops : list LoopIn) (qs : list query).
+
+(** tags: [CM] as above (1 .. 34); [CQ]: 100 * (operation of the first query of the group: 1 is_diagonal, 2 sanitize,
+    3 contains_segment + inner, 5 getters + remove + index) + outcome bits seen in the group
+    (1 Ok true / Ok value, 2 Ok false, 4 Err, 8 Panic); 0 = some query of the group disagrees *)
+Definition chk (c : c12case) : N :=
+  match c with
+  | CM c => chk_merge c
+  | CQ npoly an loops qs =>
+    let Ls := map mk_loop loops in
+    let P := match N.to_nat npoly, Ls with
+             | S k, o :: hs => Some (mkPoly o (firstn k hs) (fl an 0) (v_of an 1))
+             | _, _ => None
+             end in
+    match chk_queries Ls P qs 0 with
+    | 0%N => 0%N
+    | b => (100 * first_op qs + b)%N
+    end
   end.
 
 Module C12.
